@@ -1,6 +1,7 @@
 package rules
 
 import (
+	"sort"
 	"go/token"
 	"go/types"
 	"strings"
@@ -58,9 +59,9 @@ func checkC10(c *km.Ctx) {
 
 	validate := certgenPkg + ".ValidatePublicKeyStrength"
 	// validatedHere: value v was passed to ValidatePublicKeyStrength whose (true, nil) result holds at `at`
-	validatedAt := func(at ssa.Instruction, v ssa.Value) bool {
+	var validatedUnder func(k km.Conj, fn *ssa.Function, v ssa.Value, depth int) bool
+	validatedUnder = func(k km.Conj, fn *ssa.Function, v ssa.Value, depth int) bool {
 		v = km.Unwrap(v)
-		fn := at.Parent()
 		for _, ci := range km.CallsIn(fn) {
 			cl, ok := ci.(*ssa.Call)
 			if !ok || km.CalleeFull(cl.Common()) != validate || km.Unwrap(cl.Common().Args[0]) != v {
@@ -70,13 +71,31 @@ func checkC10(c *km.Ctx) {
 				c2, idx := callRes(f.X)
 				return f.Op == token.ILLEGAL && f.Pol && c2 == cl && idx == 0
 			}}
-			errNil := primErrNilCall("validate err==nil", cl, 1)
-			st := c.F.At(at)
-			if st.All(func(k km.Conj) bool { return s.Holds(k, okTrue) && s.Holds(k, errNil) }) {
+			if s.Holds(k, okTrue) && s.Holds(k, primErrNilCall("validate err==nil", cl, 1)) {
+				return true
+			}
+		}
+		// the value came out of a helper: every return of the helper compatible with what is known here must
+		// have validated the value it hands back
+		if depth < 3 {
+			if cases, isCall := s.ResultCases(k, v); isCall && len(cases) > 0 {
+				for _, rc := range cases {
+					kk := k
+					for _, f := range rc.K.List() {
+						kk = kk.With(f)
+					}
+					if !validatedUnder(kk, rc.Fn, rc.Val, depth+1) {
+						return false
+					}
+				}
 				return true
 			}
 		}
 		return false
+	}
+	validatedAt := func(at ssa.Instruction, v ssa.Value) bool {
+		st := c.F.At(at)
+		return len(st) > 0 && st.All(func(k km.Conj) bool { return validatedUnder(k, at.Parent(), v, 0) })
 	}
 	// 1. SSH
 	if fn := c.MustFunc("R-C10-1", "cmd/keymasterd", "getValidSSHPublicKey"); fn != nil {
@@ -198,80 +217,93 @@ func checkStrengthThresholds(c *km.Ctx, s *km.Sem) {
 	if fn == nil {
 		return
 	}
-	n := 0
+	accepted := map[string]bool{}
+	judge := func(k km.Conj) (string, bool) {
+		typ := ""
+		for _, f := range k.List() {
+			if f.Op == token.ILLEGAL && f.Pol {
+				if ex, ok := f.X.(*ssa.Extract); ok && ex.Index == 1 {
+					if ta, ok := ex.Tuple.(*ssa.TypeAssert); ok {
+						typ = types.TypeString(ta.AssertedType, nil)
+					}
+				}
+			}
+		}
+		switch typ {
+		case "*crypto/rsa.PublicKey":
+			size, exp := false, false
+			for _, f := range k.List() {
+				if f.Op != token.GEQ && f.Op != token.GTR {
+					continue
+				}
+				kv, isC := km.ConstInt(f.Y)
+				if !isC {
+					continue
+				}
+				if f.Op == token.GTR {
+					kv++
+				}
+				if cl, ok := f.X.(*ssa.Call); ok && km.CalleeFull(cl.Common()) == "(*crypto/rsa.PublicKey).Size" && kv >= 256 {
+					size = true
+				}
+				if cl, ok := f.X.(*ssa.Call); ok && strings.HasSuffix(km.CalleeFull(cl.Common()), ".BitLen") && kv >= 2048 {
+					size = true
+				}
+				if mentionsField(f.X, "E") && kv >= 65537 {
+					exp = true
+				}
+			}
+			return "rsa", size && exp
+		case "*crypto/ecdsa.PublicKey":
+			for _, f := range k.List() {
+				if f.Op != token.GEQ && f.Op != token.GTR {
+					continue
+				}
+				kv, isC := km.ConstInt(f.Y)
+				if !isC {
+					continue
+				}
+				if f.Op == token.GTR {
+					kv++
+				}
+				if mentionsField(f.X, "BitSize") && kv > 224 && kv <= 256 {
+					return "ecdsa", true
+				}
+			}
+			return "ecdsa", false
+		case "crypto/ed25519.PublicKey", "*crypto/ed25519.PublicKey":
+			return "ed25519", true
+		}
+		return "other(" + typ + ")", false
+	}
 	for _, rc := range s.RetCases(fn) {
 		v := km.Unwrap(rc.Results[0])
-		cst, ok := v.(*ssa.Const)
-		if !ok {
-			r.Add("R-C10-2", km.FuncName(fn), "computed verdict", posOf(c, rc.Ret), "verdicts are constants chosen by comparisons", km.ValStr(v), false)
+		nAcc := 0
+		okAll := true
+		var kinds []string
+		for _, k := range rc.State {
+			// the facts under which this return yields true (a refusal path is of no concern)
+			kk, mayBeTrue := s.TrueFacts(k, v)
+			if !mayBeTrue {
+				continue
+			}
+			nAcc++
+			kind, good := judge(kk)
+			kinds = appendUniq(kinds, kind)
+			if good {
+				accepted[kind] = true
+			} else {
+				okAll = false
+			}
+		}
+		if nAcc == 0 {
 			continue
 		}
-		if km.ValStr(cst) != "true" {
-			continue
-		}
-		n++
-		okAll := rc.State.All(func(k km.Conj) bool {
-			typ := ""
-			for _, f := range k.List() {
-				if f.Op == token.ILLEGAL && f.Pol {
-					if ex, ok := f.X.(*ssa.Extract); ok && ex.Index == 1 {
-						if ta, ok := ex.Tuple.(*ssa.TypeAssert); ok {
-							typ = types.TypeString(ta.AssertedType, nil)
-						}
-					}
-				}
-			}
-			switch typ {
-			case "*crypto/rsa.PublicKey":
-				size, exp := false, false
-				for _, f := range k.List() {
-					if f.Op != token.GEQ && f.Op != token.GTR {
-						continue
-					}
-					kv, isC := km.ConstInt(f.Y)
-					if !isC {
-						continue
-					}
-					if f.Op == token.GTR {
-						kv++
-					}
-					if cl, ok := f.X.(*ssa.Call); ok && km.CalleeFull(cl.Common()) == "(*crypto/rsa.PublicKey).Size" && kv >= 256 {
-						size = true
-					}
-					if cl, ok := f.X.(*ssa.Call); ok && strings.HasSuffix(km.CalleeFull(cl.Common()), ".BitLen") && kv >= 2048 {
-						size = true
-					}
-					if mentionsField(f.X, "E") && kv >= 65537 {
-						exp = true
-					}
-				}
-				return size && exp
-			case "*crypto/ecdsa.PublicKey":
-				for _, f := range k.List() {
-					if f.Op != token.GEQ && f.Op != token.GTR {
-						continue
-					}
-					kv, isC := km.ConstInt(f.Y)
-					if !isC {
-						continue
-					}
-					if f.Op == token.GTR {
-						kv++
-					}
-					if mentionsField(f.X, "BitSize") && kv > 224 && kv <= 256 {
-						return true
-					}
-				}
-				return false
-			case "crypto/ed25519.PublicKey", "*crypto/ed25519.PublicKey":
-				return true
-			}
-			return false
-		})
-		r.Add("R-C10-2", km.FuncName(fn), "accepting return", posOf(c, rc.Ret), "RSA: Size() >= 256 ∧ E >= 65537; ECDSA: 224 < threshold <= 256 on BitSize; Ed25519; nothing else", clipS(rc.State.String(), 300), okAll)
+		sort.Strings(kinds)
+		r.Add("R-C10-2", km.FuncName(fn), "accepting return", posOf(c, rc.Ret), "RSA: Size() >= 256 ∧ E >= 65537; ECDSA: 224 < threshold <= 256 on BitSize; Ed25519; nothing else", sprintf("verdict %s accepts %v", km.ValStr(v), kinds), okAll)
 	}
-	if n < 3 {
-		r.AnchorLost("R-C10-2", sprintf("accepting returns of ValidatePublicKeyStrength (found %d, expected 3)", n))
+	for _, kind := range []string{"rsa", "ecdsa", "ed25519"} {
+		r.Add("R-C10-2", km.FuncName(fn), "strong "+kind+" keys are accepted", c.P.Pos(fn.Pos()), "some return accepts this key family under its thresholds", sprintf("%v", accepted[kind]), accepted[kind])
 	}
 }
 
@@ -333,33 +365,64 @@ func checkWeakKeyStatus(c *km.Ctx, s *km.Sem) {
 			r.Add("R-C10-3", km.FuncName(fn), st.what+": refusal status", c.P.Pos(fn.Pos()), "a failure response on the weak-key edge", "no failure response found on that edge", false)
 		}
 	}
-	// the parsers classify a weak key as a user error (second result), not as an internal error
-	for _, name := range []string{"(*RuntimeState).parseRoleCertGenParams", "(*RuntimeState).parseRefreshRoleCertGenParams"} {
-		fn := c.MustFunc("R-C10-3", "cmd/keymasterd", name)
-		if fn == nil {
+	// functions that follow the (value, userError, internalError) convention classify a weak key - found by
+	// themselves or reported as a user error by a helper of the same convention - as a user error
+	isConvention := func(fn *ssa.Function) bool {
+		res := fn.Signature.Results()
+		if res.Len() != 3 {
+			return false
+		}
+		return types.TypeString(res.At(1).Type(), nil) == "error" && types.TypeString(res.At(2).Type(), nil) == "error"
+	}
+	n := 0
+	for _, fn := range c.P.AllFuncs {
+		if fn.Pkg == nil || fn.Pkg.Pkg.Path() != KMD || !isConvention(fn) || fn.Blocks == nil {
 			continue
 		}
-		n := 0
+		refusal := func(f km.Fact) bool {
+			if notStrong(f) {
+				return true
+			}
+			cl, i := callRes(f.X)
+			if f.Op == token.NEQ && km.IsNilConst(f.Y) && cl != nil && i == 1 {
+				if g := km.StaticCallee(cl.Common()); g != nil && g.Pkg != nil && g.Pkg.Pkg.Path() == KMD && isConvention(g) && reachesValidate(c, g) {
+					return true
+				}
+			}
+			return false
+		}
 		for _, rc := range s.RetCases(fn) {
-			on := rc.State.All(func(k km.Conj) bool {
+			on := len(rc.State) > 0 && rc.State.All(func(k km.Conj) bool {
 				for _, f := range k.List() {
-					if notStrong(f) {
+					if refusal(f) {
 						return true
 					}
 				}
 				return false
 			})
-			if !on || len(rc.State) == 0 {
+			if !on {
 				continue
 			}
 			n++
 			ok := km.IsNilConst(rc.Results[0]) && !km.IsNilConst(rc.Results[1]) && km.IsNilConst(rc.Results[2])
 			r.Add("R-C10-3", km.FuncName(fn), "weak key is a user error", posOf(c, rc.Ret), "(nil, userError, nil)", sprintf("%v", ok), ok)
 		}
-		if n == 0 {
-			r.Add("R-C10-3", km.FuncName(fn), "weak key is a user error", c.P.Pos(fn.Pos()), "a return on the weak-key edge", "none", false)
+	}
+	if n < 2 {
+		r.Add("R-C10-3", "cmd/keymasterd", "weak key is a user error", "", "returns on the weak-key edge of the request parsers", sprintf("found %d, expected at least 2", n), false)
+	}
+}
+
+// reachesValidate: fn (or a function it calls in the module) calls ValidatePublicKeyStrength
+func reachesValidate(c *km.Ctx, fn *ssa.Function) bool {
+	for f := range reachableFrom(c, nil, fn) {
+		for _, ci := range km.CallsIn(f) {
+			if km.CalleeFull(ci.Common()) == certgenPkg+".ValidatePublicKeyStrength" {
+				return true
+			}
 		}
 	}
+	return false
 }
 
 // statusOfFailureCall: writeFailureResponse(w, r, code, msg) / FailureWriter(w, r, msg, code) / http.Error(w, msg, code)
